@@ -163,6 +163,11 @@ func init() {
 			for i := 0; i < n; i++ {
 				v := uint64(r.Intn(1000))
 				u := units[r.Intn(len(units))]
+				if i%3 == 0 { // a plain byte count
+					n := r.U64() >> uint(r.Intn(60))
+					out = append(out, refillItem{fmt.Sprint(n), fmt.Sprint(n)})
+					continue
+				}
 				out = append(out, refillItem{fmt.Sprintf("%d%s", v, u), fmt.Sprint(v * unitMul(u))})
 			}
 			return out
@@ -217,6 +222,10 @@ func unitMul(u string) uint64 {
 }
 
 func refillStep(w *rt.W, sp *refillSpec, e refillEntry, buf *[]byte, it refillItem, prev string) {
+	if len(it.doc)%3 == 0 { // the buffer held a longer record before: its tail (digits, letters) stays behind len
+		*buf = append((*buf)[:0], it.doc...)
+		*buf = append(*buf, "98765432109876543210MMXXIVkB-01-01.9.9"...)
+	}
 	*buf = append((*buf)[:0], it.doc...)
 	got, err := e.parse(*buf)
 	w.Eval(1)
